@@ -738,7 +738,9 @@ func (x *Exprer) arrayList(al *ssa.Alloc) *Expr {
 
 // ---- canonicalisation of comparisons -------------------------------------------------------
 
-func negate(e *Expr) *Expr {
+func negate(e *Expr) *Expr { return lenNorm(negate0(e)) }
+
+func negate0(e *Expr) *Expr {
 	if e.Op == "bin" {
 		switch e.Name {
 		case "==":
@@ -785,7 +787,26 @@ func isIntegerExpr(v ssa.Value) bool {
 	return ok && b.Info()&types.IsInteger != 0
 }
 
-func canonBin(op token.Token, a, b *Expr, v ssa.Value) *Expr {
+// lenNorm: len(x) is never negative, so  0 < len(x), 1 <= len(x)  are  0 != len(x);  len(x) < 1, len(x) <= 0  are  0 == len(x).
+func lenNorm(e *Expr) *Expr {
+	if e == nil || e.Op != "bin" || len(e.Args) != 2 || (e.Name != "<" && e.Name != "<=") {
+		return e
+	}
+	isLen := func(x *Expr) bool { return x.Op == "builtin" && x.Name == "len" }
+	isK := func(x *Expr, k string) bool { return (x.Op == "const" || x.Op == "lin") && x.Name == k }
+	a, b := e.Args[0], e.Args[1]
+	switch {
+	case isLen(b) && ((e.Name == "<" && isK(a, "0")) || (e.Name == "<=" && isK(a, "1"))):
+		return mk("bin", "!=", e.Val, mk("const", "0", nil), b)
+	case isLen(a) && ((e.Name == "<" && isK(b, "1")) || (e.Name == "<=" && isK(b, "0"))):
+		return mk("bin", "==", e.Val, mk("const", "0", nil), a)
+	}
+	return e
+}
+
+func canonBin(op token.Token, a, b *Expr, v ssa.Value) *Expr { return lenNorm(canonBin0(op, a, b, v)) }
+
+func canonBin0(op token.Token, a, b *Expr, v ssa.Value) *Expr {
 	switch op {
 	case token.GTR:
 		return cmpRewrite(mk("bin", "<", v, b, a))
